@@ -184,6 +184,18 @@ def custom_weights(rep, rng, mesh, A, mi, wtexts, wcases):
     H = (sp.diags(a) @ LUw).toarray()
     if np.max(np.abs(H - H.conj().T)) > 1e-10 * np.max(np.abs(H)):
         rep.violation("covariant Laplacian with custom weights not Hermitian", case)
+    # positive weights of any number type: integers (and an integer-valued float array) give the same operators
+    wi = np.array([rng.randint(1, 5) for _ in range(E)])
+    for wvar, nm_ in ((wi, "int64 weights"), (wi.astype(np.int32), "int32 weights"), (np.ones(E, dtype=int), "unit integer weights")):
+        Li = ops.build_laplacian(mesh, weights=wvar)[0]
+        Lf = ops.build_laplacian(mesh, weights=wvar.astype(float))[0]
+        Gi = ops.build_gradient(mesh, weights=wvar)
+        Gf = ops.build_gradient(mesh, weights=wvar.astype(float))
+        LUi = ops.build_laplacian(mesh, link_exponents=A, weights=wvar)[0]
+        LUf = ops.build_laplacian(mesh, link_exponents=A, weights=wvar.astype(float))[0]
+        if abs(Li - Lf).max() > 0 or abs(Gi - Gf).max() > 0 or abs(LUi - LUf).max() > 0:
+            rep.violation("operators built with integer-typed weights differ from those built with the same weights as floats",
+                          {**case, "variant": nm_, "laplacian_diff": float(abs(Li - Lf).max()), "gradient_diff": float(abs(Gi - Gf).max())})
     # model: an edge with dual length w*len has lap_w = w
     m2 = copy.copy(mesh)
     m2.edge_mesh = copy.copy(em)
